@@ -214,9 +214,20 @@ theorem tie_readBlockCalls : readBlockCalls =
    "v.translateError",
    "v.getFunc"] := rfl
 
-/-- putWithPipe, whole text (Model.PStep: the pipe is closed with the error chosen by the first select; nil only from copyErr/putErr) -/
-theorem tie_putWithPipeText : putWithPipeText =
-  "{ piper, pipew := io.Pipe() copyErr := make(chan error) go func() { _, err := io.Copy(pipew, bytes.NewReader(buf)) copyErr <- err close(copyErr) }() putErr := make(chan error, 1) go func() { putErr <- bw.WriteBlock(ctx, loc, piper) close(putErr) }() var err error select { case err = <-copyErr: case err = <-putErr: case <-ctx.Done(): err = ctx.Err() } go pipew.CloseWithError(err) go io.Copy(ioutil.Discard, piper) <-copyErr if err != nil { return err } select { case <-ctx.Done(): return ctx.Err() case err = <-putErr: return err } }" := rfl
+/-- putWithPipe, structural facts instead of the whole text (Model.PStep: the pipe is closed with the error
+chosen by the first select; that error is nil only when it came from copyErr or putErr):
+every assignment to `err` (the three select branches, then the final `<-putErr`) … -/
+theorem tie_putWithPipeErrAssigns : putWithPipeErrAssigns =
+  ["err = <-copyErr", "err = <-putErr", "err = ctx.Err()", "err = <-putErr"] := rfl
+
+/-- … the pipe writer is closed in exactly one place, with that `err` (`PStep.close`; a plain `pipew.Close()` or
+`CloseWithError(nil)` would make the writer see EOF after a prefix) … -/
+theorem tie_pipeWriterCloseLines : pipeWriterCloseLines = ["go pipew.CloseWithError(err)"] := rfl
+
+/-- … and what putWithPipe returns: the first select's error, the context's error, or WriteBlock's result;
+its only `if` is `err != nil` (the control skeleton below fixes the order of all of these). -/
+theorem tie_putWithPipeReturns : putWithPipeReturns = ["err", "ctx.Err()", "err"] ∧
+    putWithPipeConds = ["if err != nil"] := ⟨rfl, rfl⟩
 
 /-- putWithPipe's skeleton -/
 theorem tie_putWithPipeSkel : putWithPipeSkel =
